@@ -12,6 +12,10 @@ _EMPTY_IDS = set(STACK_IDS) | {"SOI", "EOI"}
 
 
 class Analysis:
+    # e{0}, e{,0}, e{0,0}: the library accepts them (they match the empty string); the generator emits them only
+    # for the checks that need no reference semantics (feature "zerorep"), the reference evaluator refuses them
+    allow_zero_reps = True
+
     def __init__(self, rules):
         self.rules = {n: (m, e) for n, m, e in rules}
         self.null: dict[str, bool] = {n: False for n in self.rules}
@@ -39,6 +43,8 @@ class Analysis:
         if k == "alt":
             return any(self.nullable(x) for x in e[1])
         if k in ("opt", "star", "max", "and", "not", "pushlit", "slice"):
+            return True
+        if k == "exact" and e[2] == 0:
             return True
         if k in ("plus", "exact", "push", "grp"):
             return self.nullable(e[1])
@@ -109,9 +115,9 @@ class Analysis:
         out = []
         for name, (_, e) in self.rules.items():
             for n in walk(e):
-                if n[0] in ("exact", "max") and n[2] == 0:
+                if n[0] in ("exact", "max") and n[2] == 0 and not self.allow_zero_reps:
                     out.append((name, n))
-                if n[0] == "minmax" and (n[3] == 0 or n[3] < n[2]):
+                if n[0] == "minmax" and ((n[3] == 0 and not (self.allow_zero_reps and n[2] == 0)) or n[3] < n[2]):
                     out.append((name, n))
         return out
 
